@@ -43,3 +43,131 @@ class UnpackEntry:
             all((r in result[0].route) == (bits(le32(packed, 4), r, 1) == 1) for r in range(24))
             and result[0].key == le32(packed, 8) and result[0].mask == le32(packed, 12)
             and result[1] == select(packed, 2) and result[2] == select(packed, 3) % 16)
+
+
+# ---- loading a table: allocation, encoding of every entry, one write, one router-load command -----------
+from pyvc.values import TRec, TSmallSet, ListV, NONE, TBool   # noqa: E402
+from pyvc.speclib import forall_range, opaque   # noqa: E402
+
+U32 = TInt(0, 2 ** 32 - 1)
+ROUTES = list(range(24))
+ENTRY = TRec("RoutingTableEntry", route=TSmallSet(ROUTES), key=U32, mask=U32)
+MC = TRec("MachineController")
+REPLY = TRec("SCPPacket", arg1=U32)
+
+
+def _send_scp(E, obj, args, kwargs, st, node):
+    s = st.copy()
+    s.trace = ListV(s.trace.items + (("scp",) + tuple(args),))
+    return [(s, st.env["g_alloc_reply"], None)]
+
+
+def _read_struct_field(E, obj, args, kwargs, st, node):
+    s = st.copy()
+    s.trace = ListV(s.trace.items + (("read_struct_field",) + tuple(args),))
+    return [(s, st.env["g_buf"], None)]
+
+
+def _write(E, obj, args, kwargs, st, node):
+    s = st.copy()
+    s.trace = ListV(s.trace.items + (("write",) + tuple(args),))
+    return [(s, NONE, None)]
+
+
+@opaque
+def route_word(e):
+    """bit r of the route word is set exactly for the routes of the entry"""
+    return sum(((1 << r) if r in e.route else 0) for r in range(24))
+
+
+def record_ok(data, j, e):
+    """the 16-byte router record at index j of the buffer encodes entry e"""
+    return (le16(data, 16 * j) == j and le16(data, 16 * j + 2) == 0 and le32(data, 16 * j + 4) == route_word(e)
+            and le32(data, 16 * j + 8) == e.key and le32(data, 16 * j + 12) == e.mask)
+
+
+def _mk_entries(entries):
+    from rig.routing_table import RoutingTableEntry, Routes
+    return [RoutingTableEntry({Routes(r) for r in e.route}, e.key, e.mask) for e in entries]
+
+
+@contract("rig/machine_control/machine_controller.py::MachineController.load_routing_table_entries")
+class LoadEntries:
+    properties = ("C10",)
+    params = dict(self=MC, entries=TSeq(ENTRY, maxlen=1024), x=TInt(0, 255), y=TInt(0, 255), app_id=TInt(0, 255),
+                  g_alloc_reply=REPLY, g_buf=U32)
+    externals = {"MachineController._send_scp": _send_scp, "MachineController.read_struct_field": _read_struct_field,
+                 "MachineController.write": _write}
+    options = {"decorators": {"use_contextual_arguments": "identity"}, "trace_in_loops": False, "loop_keep": ["self"]}
+    raises = {"SpiNNakerRouterError": None}
+    loop_headers = {0: "for i, entry in enumerate(entries):"}
+    assumptions = ["ContextMixin.use_contextual_arguments treated as the identity (property C18)",
+                   "the machine's replies (allocation result, sv.sdram_sys) are ghost inputs; the router installs what the load command names (assumed, model in bounded/_scamp.py)"]
+
+    def native(entries, x, y, app_id, g_alloc_reply, g_buf):
+        from rig.machine_control.machine_controller import MachineController
+        from rig.utils.contexts import ContextMixin
+        import types
+        mc = MachineController.__new__(MachineController)
+        ContextMixin.__init__(mc, {})
+        tr = []
+        mc._send_scp = lambda *a, **k: (tr.append(("scp",) + a), types.SimpleNamespace(arg1=g_alloc_reply.arg1))[1]
+        mc.read_struct_field = lambda *a: (tr.append(("read_struct_field",) + a), g_buf)[1]
+        mc.write = lambda *a: tr.append(("write",) + a)
+        try:
+            mc.load_routing_table_entries(_mk_entries(entries), x, y, app_id)
+            raised = None
+        except Exception as e:
+            raised = type(e).__name__
+        return {"__native__": True, "result": None, "raised": raised, "_trace": tr}
+
+    def raises_SpiNNakerRouterError(g_alloc_reply, _trace):
+        # only when the block could not be allocated, and then nothing was written or loaded
+        return g_alloc_reply.arg1 == 0 and len(_trace) == 1
+
+    # the word packed for an entry is the OR of its routes' bits (proved at the pack statement and
+    # then available to the invariant step)
+    ghost_asserts = {"""struct.pack_into(consts.RTE_PACK_STRING, data, i*16,
+                             i, 0, route, entry.key, entry.mask)""": ["ghost_route_word_is_the_or_of_the_routes"]}
+
+    def ghost_route_word_is_the_or_of_the_routes(route, entry):
+        return route == route_word(entry)
+
+    def inv_0_size(data, entries):
+        return seq_len(data) == 16 * seq_len(entries)
+
+    def inv_0_index_and_free_words(data, _k0):
+        return forall_range(0, _k0, lambda j: le16(data, 16 * j) == j and le16(data, 16 * j + 2) == 0)
+
+    def inv_0_route_words(data, entries, _k0):
+        return forall_range(0, _k0, lambda j: le32(data, 16 * j + 4) == route_word(select(entries, j)))
+
+    def inv_0_keys(data, entries, _k0):
+        return forall_range(0, _k0, lambda j: le32(data, 16 * j + 8) == select(entries, j).key)
+
+    def inv_0_masks(data, entries, _k0):
+        return forall_range(0, _k0, lambda j: le32(data, 16 * j + 12) == select(entries, j).mask)
+
+    def ensures_allocates_then_writes_then_loads(entries, x, y, app_id, g_alloc_reply, g_buf, _trace):
+        n = seq_len(entries)
+        return (g_alloc_reply.arg1 != 0 and len(_trace) == 4
+                and _trace[0][:6] == ("scp", x, y, 0, 28, app_id * 256 + 3) and _trace[0][6] == n
+                and _trace[2][0] == "write" and _trace[2][1] == g_buf and _trace[2][3] == x and _trace[2][4] == y
+                and _trace[3][:5] == ("scp", x, y, 0, 29) and _trace[3][5] == n * 65536 + app_id * 256 + 2
+                and _trace[3][6] == g_buf and _trace[3][7] == g_alloc_reply.arg1)
+
+    def ensures_buffer_size(entries, _trace):
+        return seq_len(_trace[2][2]) == 16 * seq_len(entries)
+
+    def ensures_records_are_numbered_in_order(entries, _trace):
+        data = _trace[2][2]
+        return forall_range(0, seq_len(entries), lambda j: le16(data, 16 * j) == j and le16(data, 16 * j + 2) == 0)
+
+    def ensures_route_words_are_exactly_the_entries_routes(entries, _trace):
+        data = _trace[2][2]
+        return forall_range(0, seq_len(entries), lambda j: le32(data, 16 * j + 4) == route_word(select(entries, j)))
+
+    def ensures_keys_and_masks(entries, _trace):
+        data = _trace[2][2]
+        return forall_range(0, seq_len(entries), lambda j: le32(data, 16 * j + 8) == select(entries, j).key
+                            and le32(data, 16 * j + 12) == select(entries, j).mask)
